@@ -8,9 +8,14 @@ the very first call, calls that are never reached, several stops at different ti
 Compared with the model: full event trace, `t_final`, `steps`, final state, `stop_reason`,
 `successful`, finalize calls, `MemoryStorage.times/data`, `DataTracker.times/data`, pending action
 times.  Monitor (every real run): per-tracker strictly increasing times on the step lattice with the
-state after n steps, constant schedules with D >= dt served exactly once within dt/2, frame count,
-recorded frames = calls, stop handling (all due trackers served, run ends at the stop time with the
-state of that time, reason of the last raising tracker reported, every tracker finalised once)."""
+state after n steps (own copy of the solver's scheme; equations as in C07, incl. the state-dependent
+ones), constant schedules with D >= dt served exactly once within dt/2, the frame count clauses of
+the statement literally (floor(T/D)+1 on a whole number of steps; otherwise at most one more, at the
+final time), "exactly at it" for every tracker of an adaptive / exact stepper, recorded frames =
+calls, stop handling (all due trackers served, run ends at the stop time with the state of that time,
+reason of the last raising tracker reported, every tracker finalised once).  Where the unchanged code
+deviates from a literal clause the monitor recognises the corner on the data of the failing run and
+names it in the key (ctrl.KNOWN_CORNERS); nothing is keyed by the leg it was found in."""
 import copy
 import json
 
@@ -38,6 +43,10 @@ ASSUMPTIONS = [
     "GeometricInterrupts answers (libm log/pow) are replayed as an oracle schedule in Float mode and at float ties",
     "served-exactly-once and the frame count are proved for constant schedules without t_start offset "
     "restrictions other than D >= dt; other schedules are covered by the trace theorems and the correspondence",
+    "`exactly at it for adaptive steppers` is judged for trackers whose schedule is t_start + k*D (the statement's "
+    "schedule); a tracker with an own start offset less than dt/2 after t_start is served at t_start",
+    "truly adaptive steppers (dt and with it both tolerances change during the run, targets overshot by dt_min = 1e-10) "
+    "are monitored, not modelled (theorems adaptive_served_exactly*_partial)",
 ]
 TRUSTED_EXTRA = ["IEEE double arithmetic of Lean's Float equals CPython/numpy/numba float64 for + - * / floor"]
 
